@@ -3,7 +3,7 @@ import re
 
 from hypothesis import strategies as st
 
-from vlib import gens
+from vlib import gens, tpl
 from vlib.framework import Check, Outcome
 from vlib.sf import Crash, guard
 from vlib.tpl import cached_cfg, jinja_parses, ws_control
@@ -104,14 +104,36 @@ def alternate_cause(tf, call):
     return "rewritten-ifs-each-visited-once"
 
 
+def python_cause(case, src, tf):
+    """Cause label for a failing python-templater map (signature only).  The python slicer finds literals by searching
+    their text in the rendered string; when it misplaces them, _check_for_wrapped trims the rendered text to the
+    span of the slices (known finding F-C09-c).  'rendering-trimmed': the rendered text is no longer what str.format
+    gives (C09's reference); 'backward-rendered-slice': a slice whose rendered stop lies before its start."""
+    try:
+        from checks.C09 import Invalid, py_reference
+
+        try:
+            if py_reference(src, case.get("context") or {}, case.get("dotted")) != tf.templated_str:
+                return "rendering-trimmed"
+        except Invalid:
+            pass
+    except Exception:
+        pass
+    if any(s.templated_slice.stop < s.templated_slice.start for s in tf.sliced_file):
+        return "backward-rendered-slice"
+    return "-"
+
+
 class C07(Check):
     id = "C07"
     level = "exploration"
     rule = (
-        "Domain: generated Jinja templates (realistic and adversarial concatenation; if/elif/else and for weighted up "
-        "to 50 % of elements so that alternate variants for unreached branches, also nested in loops, are frequent; "
-        "set, macro, raw, comments, whitespace control), the bundled templater fixtures, python format strings "
-        "(escaped braces, conversions, specs, dotted names) and placeholder SQL in all 12 styles with/without values; "
+        "Domain: generated Jinja templates (realistic and adversarial concatenation; if/elif/else and for forced for "
+        "15-30 % of elements so that alternate variants for unreached branches, also nested in loops, are frequent; "
+        "set, macro, raw, comments, whitespace control; for/else only over empty iterables because the templater skips "
+        "files with a for/else that iterates; templates plain Jinja cannot parse are filtered out), the bundled "
+        "templater fixtures, python format strings (escaped braces, conversions, specs, nested specs, dotted names, "
+        "invalid pieces) and placeholder SQL in all 12 styles with no/some/all values; "
         "render_variant_limit in {1,5,10}; every TemplatedFile in Linter.render_string(...).templated_variants (and "
         "from templater.process_with_variants directly for pinned cases). Oracle (vlib.tmap.slicemap_problems): raw "
         "slices tile the source in order with equal text, rendered slices tile the rendered text in order, every "
@@ -159,14 +181,15 @@ class C07(Check):
             gens.jinja_case(profile="realistic", **kw),
             gens.jinja_case(profile="adversarial", control_bias=0.2, undefined=True, **kw),
         ).filter(lambda c: len(c["sql"]) <= 1200 and jinja_parses(c["sql"]))
-        return with_limit(st.one_of(jin, jin, jin, jin, gens.pyfmt_case(), gens.placeholder_case()))
+        other = st.one_of(gens.pyfmt_case(), tpl.pyfmt_rich_case(), gens.placeholder_case(), tpl.placeholder_rich_case())
+        return with_limit(st.one_of(jin, jin, other))
 
     def budget_s(self, tier):
         # safety net only (the case counts are the bound); generous because the box may be shared
         return 420.0 if tier == "quick" else 1700.0
 
     def examples(self, tier):
-        return 220 if tier == "quick" else 12000
+        return 190 if tier == "quick" else 12000
 
     # ------------------------------------------------------------------ one case
     def run_case(self, case):
@@ -207,6 +230,9 @@ class C07(Check):
                 cause = "other"
                 if templater == "python" and re.search(r"\{[^{}]*:\}", src):
                     cause = "empty-format-spec"
+                elif templater == "jinja" and re.search(r"\{#[-+]?$", src):
+                    # Jinja accepts a template that ends with a comment opener (the lexer emits comment_begin and stops)
+                    cause = "comment-opener-at-eof"
                 return out.fail(got.msg, templater=templater, variant="primary", clause="ctor-consistency-assert",
                                 cause=cause)
             if got.type in ("SQLFluffSkipFile", "SQLTemplaterError"):
@@ -259,6 +285,8 @@ class C07(Check):
                 cause = "-"
                 if templater == "jinja" and vi > 0:
                     cause = alternate_cause(tf, tap.calls[vi - 1] if vi - 1 < len(tap.calls) else None)
+                elif templater == "python":
+                    cause = python_cause(case, src, tf)
                 out.fail(f"variant {vi}: {detail}", templater=templater, variant=var, clause=clause, cause=cause)
             if vi > 0:
                 out.label("alternate-variant")
